@@ -11,6 +11,7 @@ import (
 	"runtime/metrics"
 	"sort"
 	"strconv"
+	"strings"
 	"sync/atomic"
 	"testing"
 	"time"
@@ -312,6 +313,8 @@ type hangAbort struct{ res *Result }
 
 var curCase atomic.Pointer[Case]
 
+var memLog = os.Getenv("ICESIM_MEMLOG") != ""
+
 // lastBeat is the time of the last sign of progress (a case or a sub-run
 // starting). A shard that shows none for stallLimit is stuck somewhere no
 // scheduler watches (e.g. the world of the next case cannot be built because an
@@ -319,6 +322,23 @@ var curCase atomic.Pointer[Case]
 var lastBeat atomic.Int64
 
 const stallLimit = 420 * time.Second
+
+// residentBytes is the memory the process has actually touched (RSS). Mapped
+// but untouched memory does not count: ice's builder legitimately reserves an
+// output buffer of (previous build's bytes per document) x (documents of this
+// batch) from its pooled state, which can be many gigabytes that are never used.
+func residentBytes() uint64 {
+	b, err := os.ReadFile("/proc/self/statm")
+	if err != nil {
+		return 0
+	}
+	f := strings.Fields(string(b))
+	if len(f) < 2 {
+		return 0
+	}
+	pages, _ := strconv.ParseUint(f[1], 10, 64)
+	return pages * uint64(os.Getpagesize())
+}
 
 // Heartbeat records progress.
 func Heartbeat() { lastBeat.Store(time.Now().UnixNano()) }
@@ -330,12 +350,11 @@ var CurrentCaseFile string
 var OnShardAbort func(st *ShardStats)
 
 func startMemoryWatchdog(limit uint64, prop string, seed uint64, shard int, outDir string, st *ShardStats) {
-	sample := []metrics.Sample{{Name: "/memory/classes/total:bytes"}}
 	go func() {
 		for {
 			time.Sleep(50 * time.Millisecond)
-			metrics.Read(sample)
-			over := sample[0].Value.Kind() == metrics.KindUint64 && sample[0].Value.Uint64() >= limit
+			rss := residentBytes()
+			over := rss >= limit
 			stalled := time.Since(time.Unix(0, lastBeat.Load())) > stallLimit
 			if !over && !stalled {
 				continue
@@ -347,7 +366,7 @@ func startMemoryWatchdog(limit uint64, prop string, seed uint64, shard int, outD
 			var fail *Fail
 			if over {
 				fail = &Fail{Prop: prop, Oracle: "memory", Kind: "memory-blowup", Site: c.Scen,
-					Detail: fmt.Sprintf("while this case was executing the process grew to %d MiB (limit %d MiB): the code under test requested an absurd amount of memory, typically a slice sized by a wrong length or frequency", sample[0].Value.Uint64()>>20, limit>>20)}
+					Detail: fmt.Sprintf("while this case was executing the resident memory of the process grew to %d MiB (limit %d MiB): the code under test filled an absurd amount of memory, typically a slice sized by a wrong length or frequency", rss>>20, limit>>20)}
 			} else {
 				buf := make([]byte, 1<<20)
 				buf = buf[:runtime.Stack(buf, true)]
@@ -373,13 +392,11 @@ func startMemoryWatchdog(limit uint64, prop string, seed uint64, shard int, outD
 // WatchMemory calls onBlowup once when the process exceeds limit bytes (used by
 // replay, so that replaying a memory-blowup verdict ends with a verdict too).
 func WatchMemory(limit uint64, onBlowup func(mib uint64)) {
-	sample := []metrics.Sample{{Name: "/memory/classes/total:bytes"}}
 	go func() {
 		for {
 			time.Sleep(50 * time.Millisecond)
-			metrics.Read(sample)
-			if sample[0].Value.Kind() == metrics.KindUint64 && sample[0].Value.Uint64() >= limit {
-				onBlowup(sample[0].Value.Uint64() >> 20)
+			if rss := residentBytes(); rss >= limit {
+				onBlowup(rss >> 20)
 				return
 			}
 		}
@@ -393,9 +410,12 @@ func RunShard(prop, tier string, seed uint64, shard, shards int, plan []PlanItem
 	start := time.Now()
 	st := &ShardStats{Prop: prop, Tier: tier, Shard: shard, Seed: seed, PerScen: map[string]*ScenStats{}, Known: map[string]int{}, Hashes: map[string][]uint64{}}
 	env := &Env{Prop: prop, Tier: tier}
-	limit := uint64(5) << 30
+	// far above anything the unchanged code needs (its builder can legitimately
+	// touch a few GiB: see residentBytes); an allocation the OS refuses outright
+	// ends the process and is classified by the orchestrator (crashVerdict)
+	limit := uint64(24) << 30
 	if RaceBuild {
-		limit = 12 << 30
+		limit = 40 << 30
 	}
 	Heartbeat()
 	startMemoryWatchdog(limit, prop, seed, shard, outDir, st)
@@ -450,6 +470,17 @@ func RunShard(prop, tier string, seed uint64, shard, shards int, plan []PlanItem
 			}
 			res, err := Execute(c, env)
 			curCase.Store(nil)
+			if memLog {
+				ms := []metrics.Sample{{Name: "/memory/classes/heap/objects:bytes"}, {Name: "/memory/classes/total:bytes"}}
+				metrics.Read(ms)
+				if ms[1].Value.Uint64() > 2<<30 {
+					b, _ := json.Marshal(c)
+					if len(b) > 600 {
+						b = b[:600]
+					}
+					fmt.Fprintf(os.Stderr, "MEMLOG objects=%dMiB total=%dMiB case=%s\n", ms[0].Value.Uint64()>>20, ms[1].Value.Uint64()>>20, b)
+				}
+			}
 			if err != nil {
 				harnessErr = err
 				return
